@@ -16,7 +16,9 @@ EXPLANATION = ('2-safety by self-composition with SYMBOLIC PRE-STATE (one induct
                '_run) is set to fresh symbols, or an arbitrary earlier call / the construction and use of another solver object '
                'with arbitrary symbolic arguments is executed first; then the call under test runs and z3 decides that its '
                'outputs are equal to those of the same call made first on a fresh object (equivalently: do not depend on the '
-               'pre-state symbols).  Batch independence (other points, order, duplicates) is decided on N = 2 symbolic points.')
+               'pre-state symbols).  Batch independence (other points, order, duplicates) is decided on N = 2 symbolic points.  '
+               'np.empty memory is an arbitrary value (fresh symbols): no output may be computed from it.  Class-level shared objects '
+               '(black-box Noh Newton solver) are modelled as ONE shared contract stub installed on the class.')
 BOUNDS = ['history of length one with symbolic arguments (inductive step); N = 2 points for the batch clause; gamma sliced for '
           'Riemann/Sedov/Guderley']
 OUTSIDE = ['"vary only within documented resolution" for the grid-dependent solvers (Mader dx, Sedov max(r), SDRZ table, Riemann '
